@@ -573,3 +573,10 @@ def d9(cx: Cx, ob: Ob) -> None:
                         witness="NamedReference(prefix='a', identifier='1', name='') dumps without 'name' and fails to validate",
                         detail="serializer-truthiness",
                     )
+
+
+@obligation("C15-X12", "def-use lints over the files this property is anchored in (api.py, triples.py): no one-shot iterator (generator expression, map, filter, zip, iter, reversed, enumerate, generator call) bound to a name is consumed twice or inside a loop that starts after its creation; no mutable default argument is mutated, stored or returned", floor=1)
+def x12(cx: Cx, ob: Ob) -> None:
+    from ..rules import package_lints
+
+    package_lints(cx, ob, {'api.py', 'triples.py'})
